@@ -110,9 +110,12 @@ def gen_cases(tier):
         if tier == "quick":
             for devs in na.subsets(m, 1):
                 cases.append({"base": b, "devs": [list(d) for d in devs], "routes": gx.ROUTES})
+            n2 = 0
             for devs in na.subsets(gx.reduced_menu(b), 2):
                 if len(devs) == 2:
-                    cases.append({"base": b, "devs": [list(d) for d in devs], "routes": ["ppc_flat", "mpc_flat"]})
+                    # pairs alternate between the PYPOWER route and the .mat file route (both are complete at k<=1)
+                    cases.append({"base": b, "devs": [list(d) for d in devs], "routes": [["ppc_flat"], ["mpc_flat"]][n2 % 2]})
+                    n2 += 1
         else:
             for devs in na.subsets(m, 2):
                 cases.append({"base": b, "devs": [list(d) for d in devs], "routes": gx.ROUTES})
@@ -135,7 +138,7 @@ def explore(tier, seed):
         cases = [c for c in cases if len(c["devs"]) <= int(kmax)]
         rep.extra["restricted_by_env_VERIF_K"] = int(kmax)
     rep.rule = ("E1: quick: every subset of <=1 deviations of the full C21 menus (3 routes) and every pair of the reduced menus (routes "
-                "ppc_flat, mpc_flat); thorough: every subset of <=2 of the full menus (3 routes) and every 3-subset of the structural/tap "
+                "ppc_flat / mpc_flat alternating); thorough: every subset of <=2 of the full menus (3 routes) and every 3-subset of the structural/tap "
                 "sub-menu; bases %s, routes %s; distinct+non-trivial = original AND converted power flow "
                 "converged, keyed by (base, route, deviation-set hash, shape of the converted net)" % (BASES, gx.ROUTES))
     rep.extra["bound_k"] = min(int(kmax), 3) if kmax else (2 if tier == "quick" else 3)
